@@ -395,6 +395,19 @@ impl Drop for Unwind {
                 drop(ManuallyDrop::into_inner(g));
             }
         }
+        // open read / write sections of cells (pointer guards on the panicking thread's stack)
+        let keys: Vec<(usize, usize)> = w.rptrs.borrow().keys().filter(|k| k.0 == self.tid).cloned().collect();
+        for k in keys {
+            if let Some(g) = w.rptrs.borrow_mut().remove(&k) {
+                drop(ManuallyDrop::into_inner(g));
+            }
+        }
+        let keys: Vec<(usize, usize)> = w.wptrs.borrow().keys().filter(|k| k.0 == self.tid).cloned().collect();
+        for k in keys {
+            if let Some(g) = w.wptrs.borrow_mut().remove(&k) {
+                drop(ManuallyDrop::into_inner(g));
+            }
+        }
         let h = w.handles.borrow_mut().remove(&self.body);
         if let Some(h) = h {
             if let Handle::Live(a) = ManuallyDrop::into_inner(h) {
@@ -576,6 +589,21 @@ fn exec_op(w: &Rc<World>, tid: usize, op: &Op) -> Ret {
             let w2 = w.clone();
             let b2 = *b;
             let h = loom::thread::spawn(move || run_thread(w2, b2));
+            w.thread_handles.borrow_mut().insert(*b, h.thread().clone());
+            w.joins.borrow_mut().insert(*b, h);
+            Ret::Unit
+        }
+        Op::SpawnOwn(b, hidx) => {
+            // `let a2 = ..; thread::spawn(move || use(a2))`: the closure owns the Arc handle until the thread starts
+            let owned = w.handles.borrow_mut().remove(hidx).map(ManuallyDrop::into_inner);
+            let w2 = w.clone();
+            let (b2, h2) = (*b, *hidx);
+            let h = loom::thread::spawn(move || {
+                if let Some(o) = owned {
+                    w2.handles.borrow_mut().insert(h2, ManuallyDrop::new(o));
+                }
+                run_thread(w2, b2)
+            });
             w.thread_handles.borrow_mut().insert(*b, h.thread().clone());
             w.joins.borrow_mut().insert(*b, h);
             Ret::Unit
